@@ -186,7 +186,9 @@ func build(fx *cat.Fixture, c caseA) (*s3c.Req, error) {
 		case "header-drop":
 			r.Del(m.Name)
 		default:
-			r.Body = applyBodyMut(r.Body, m)
+			if nb := applyBodyMut(r.Body, m); len(nb) <= 8<<20 {
+				r.Body = nb // larger bodies only cost time: the point is structure, not volume
+			}
 		}
 	}
 	now := time.Now().UTC()
@@ -376,7 +378,9 @@ func execA(c caseA) (o outcome, err error) {
 		}
 	} else {
 		runtime.ReadMemStats(&ms1)
-		if grown := ms1.TotalAlloc - ms0.TotalAlloc; grown > 256<<20 {
+		// memory proportional to the bytes actually received is fine; what must not happen
+		// is an allocation sized by a number the request merely declares
+		if grown := ms1.TotalAlloc - ms0.TotalAlloc; grown > 256<<20+16*uint64(len(req.Payload())) {
 			return o, fmt.Errorf("%s: serving a %d byte request allocated %d MiB", pfx, len(req.Payload()), grown>>20)
 		}
 	}
